@@ -69,8 +69,10 @@ impl RtStream {
                     out.violation("C12", "duplicate-id", format!("two entries with id {}", hex(n.id().as_bytes())));
                 }
                 // (3)
-                if own.distance(n.id()) != *d || *d == 0 {
-                    out.violation("C12", "bucket-distance", format!("entry at distance {} sits in bucket {}", own.distance(n.id()), d));
+                // (the distance is recomputed here bit by bit, not with the `Id::distance` the table itself uses)
+                let dist = distance_ref(&self.own, n.id().as_bytes());
+                if dist != *d as usize || *d == 0 {
+                    out.violation("C12", "bucket-distance", format!("entry {} at distance {dist} from {} sits in bucket {}", hex(n.id().as_bytes()), hex(&self.own), d));
                 }
             }
         }
@@ -338,4 +340,15 @@ pub fn run(out: &mut Out, seed: u64, thorough: bool, replay: Option<&str>) {
         }
     }
     let _ = expected_dk;
+}
+
+/// 160 minus the number of leading zero bits of `a xor b`
+pub fn distance_ref(a: &[u8; 20], b: &[u8; 20]) -> usize {
+    for i in 0..160 {
+        let (x, y) = (a[i / 8] >> (7 - i % 8) & 1, b[i / 8] >> (7 - i % 8) & 1);
+        if x != y {
+            return 160 - i;
+        }
+    }
+    0
 }
